@@ -207,6 +207,7 @@ func runC07(c *Ctx, tier string) {
 	runCutOrderFromCopies(c, "C07-K3")
 	c.Rule("C07-F1", "a predicate pushed into a scan becomes a prefilter that over-approximates it (= C04-F1): the and/or composition of CompileBufferFilter keeps a one-sided sub-filter only under `and`")
 	c.borrow(func(t *Ctx) { runC04F1(t) }, map[string]string{"C04-F1": "C07-F1"})
+	runFilterInstancesArePrivate(c, "C07-F3")
 	// D2
 	runLegsGetCopies(c, "C07-D2")
 	// D3
